@@ -1195,4 +1195,115 @@ theorem readTL1_total (cfg : Cfg) (d : Desc) (hwf : d.wf = true) :
     rw [readTL1_succ]
     exact ⟨readStep_total cfg d hwf ih.1 ih.2, readStep_num cfg d _⟩
 
+
+/-! ### allocation guard -/
+
+theorem readElems_length {rd : Rd} (f : Field) (na : List Nat) :
+    ∀ (n : Nat) (bs : Bytes) (vs : List Val) (rest : Bytes), readElemsWith rd f na n bs = .ok (vs, rest) → vs.length = n := by
+  intro n
+  induction n with
+  | zero =>
+    intro bs vs rest h
+    simp only [readElemsWith] at h
+    injection h with h; injection h with h _; subst h; rfl
+  | succ n ih =>
+    intro bs vs rest h
+    simp only [readElemsWith] at h
+    cases h1 : rd f.ty f.bare na bs with
+    | error e => simp [h1] at h
+    | ok p =>
+      obtain ⟨v, bs'⟩ := p
+      simp only [h1] at h
+      cases h2 : readElemsWith rd f na n bs' with
+      | error e => simp [h2] at h
+      | ok q =>
+        obtain ⟨vs', bs''⟩ := q
+        simp only [h2] at h
+        injection h with h; injection h with h _; subst h
+        simp [ih _ _ _ h2]
+
+/-- `CheckLengthSanity(w, n, 4)`: an accepted count is at most a quarter of the remaining input -/
+theorem sanityOk_bound {cfg : Cfg} (hc : cfg.sanity = true) {bs : Bytes} {n : Nat} (h : sanityOk cfg bs n = true) :
+    n * 4 ≤ bs.length := by
+  simpa [sanityOk, hc] using h
+
+theorem dictNormalize_length_le (k : PrimK) (vs : List Val) : (dictNormalize k vs).length ≤ vs.length := by
+  have := (dictFold_props (fun _ _ _ _ => .ok []) default [] k vs []).2.2
+  simpa [dictNormalize] using this
+
+/-- with the sanity check on, every vector / dynamic tuple / dictionary the reader returns has at most
+`|input| / 4` elements (so the `make` it performs before reading elements is bounded by the input size) -/
+theorem readTL1_alloc_bound {cfg : Cfg} (hc : cfg.sanity = true) (d : Desc) (fuel ty : Nat) (bare : Bool) (params : List Nat)
+    (bs : Bytes) (v : Val) (rest : Bytes) (a : ArrayD)
+    (hg : d.get? ty = some (.dict a) ∨ (d.get? ty = some (.array a) ∧ (a.isTuple = false ∨ a.dynamic = true)))
+    (h : readTL1 cfg d fuel ty bare params bs = .ok (v, rest)) :
+    ∃ vs, v = .arr vs ∧ vs.length * 4 ≤ bs.length := by
+  cases fuel with
+  | zero => simp [readTL1] at h
+  | succ fuel =>
+    simp only [readTL1] at h
+    rcases hg with hg | ⟨hg, hkind⟩
+    · simp only [hg] at h
+      cases hna : natArgVals [] params a.elem.natArgs with
+      | none => simp [hna] at h
+      | some na =>
+        simp only [hna] at h
+        cases h1 : readU32 bs with
+        | error e => simp [h1] at h
+        | ok p =>
+          obtain ⟨n, bs1⟩ := p
+          simp only [h1] at h
+          have hlen := readU32_len h1
+          split at h
+          · cases h
+          · rename_i hs
+            have hb := sanityOk_bound hc (by simpa using hs)
+            cases hk : dictKeyPrim d a with
+            | none => simp [hk] at h
+            | some k =>
+              simp only [hk] at h
+              obtain ⟨⟨vs, r⟩, he, hv⟩ := map_ok_inv h
+              injection hv with hv _
+              have := readElems_length _ _ _ _ _ _ he
+              have := dictNormalize_length_le k vs
+              exact ⟨_, hv.symm, by simp only; omega⟩
+    · simp only [hg] at h
+      cases hna : natArgVals [] params a.elem.natArgs with
+      | none => simp [hna] at h
+      | some na =>
+        simp only [hna] at h
+        by_cases ct : a.isTuple = true
+        · have hd : a.dynamic = true := by
+            rcases hkind with h' | h'
+            · rw [ct] at h'; cases h'
+            · exact h'
+          simp only [ct, if_true, hd] at h
+          cases hn : params[0]? with
+          | none => simp [hn] at h
+          | some n =>
+            simp only [hn] at h
+            split at h
+            · cases h
+            · rename_i hs
+              have hb := sanityOk_bound (bs := bs) (n := n) hc (by simpa using hs)
+              obtain ⟨⟨vs, r⟩, he, hv⟩ := map_ok_inv h
+              injection hv with hv _
+              have := readElems_length _ _ _ _ _ _ he
+              exact ⟨_, hv.symm, by simp only; omega⟩
+        · simp only [ct, Bool.false_eq_true, if_false] at h
+          cases h1 : readU32 bs with
+          | error e => simp [h1] at h
+          | ok p =>
+            obtain ⟨n, bs1⟩ := p
+            simp only [h1] at h
+            have hlen := readU32_len h1
+            split at h
+            · cases h
+            · rename_i hs
+              have hb := sanityOk_bound hc (by simpa using hs)
+              obtain ⟨⟨vs, r⟩, he, hv⟩ := map_ok_inv h
+              injection hv with hv _
+              have := readElems_length _ _ _ _ _ _ he
+              exact ⟨_, hv.symm, by simp only; omega⟩
+
 end TLVerif.Codec
